@@ -382,13 +382,22 @@ pub fn par_map_with<T: Sync, S, R: Send>(
                 .stack_size(256 << 20)
                 .spawn_scoped(s, move || {
                     let mut state = init(tid);
+                    // a stack overflow in the code under test aborts the whole process and cannot be caught: every worker
+                    // leaves the index of the item it is working on in a marker file the driver reads after an abort
+                    let marker = std::env::var("ZYCONF_INFLIGHT").ok().map(|d| format!("{d}/{tid}"));
                     loop {
                         let i = next.fetch_add(1, std::sync::atomic::Ordering::Relaxed);
                         if i >= n {
                             break;
                         }
+                        if let Some(m) = &marker {
+                            let _ = std::fs::write(m, i.to_string());
+                        }
                         let r = f(&mut state, i, &items[i]);
                         results.lock().unwrap()[i] = Some(r);
+                    }
+                    if let Some(m) = &marker {
+                        let _ = std::fs::remove_file(m);
                     }
                     fini(state);
                 })
